@@ -101,6 +101,9 @@ struct LoopContext {
     /// True for the context of a labelled statement itself (`L: stmt`): it is a target only
     /// for `break L` / `continue L`, never for an unlabelled break or continue.
     label_only: bool,
+    /// True for the context of a switch statement: a target for an unlabelled `break`,
+    /// but an unlabelled `continue` passes through it to the enclosing loop.
+    is_switch: bool,
 }
 
 impl Compiler {
@@ -266,12 +269,21 @@ impl Compiler {
             continue_scope_depth: self.builder.scope_depth(),
             iterator_reg,
             label_only: false,
+            is_switch: false,
         });
     }
 
     /// Index of the innermost loop/switch context an unlabelled break or continue refers to
     fn innermost_unlabelled_target(&self) -> Option<usize> {
         self.loop_stack.iter().rposition(|ctx| !ctx.label_only)
+    }
+
+    /// Index of the innermost loop an unlabelled continue refers to (switch statements and
+    /// labelled statements are transparent for it)
+    fn innermost_continue_target(&self) -> Option<usize> {
+        self.loop_stack
+            .iter()
+            .rposition(|ctx| !ctx.label_only && !ctx.is_switch)
     }
 
     /// Set the continue target for the current loop and patch any pending continue jumps
@@ -411,7 +423,7 @@ impl Compiler {
                 ))
             })?
         } else {
-            self.innermost_unlabelled_target()
+            self.innermost_continue_target()
                 .ok_or_else(|| JsError::syntax_error_simple("Illegal continue statement"))?
         };
 
